@@ -221,7 +221,7 @@ Definition in_another_chunk {R} (c : cfg) (s : arena) (h : hstate) (size align :
     | (cs, j, None) =>
       let s0 := upd_cur (upd_chunks s cs) (Cur j) in
       match grow_arena c s0 size align r with
-      | (s1, Some e) => (s1, inr e)
+      | (s1, Some e) => (upd_cur s1 (Cur i), inr e)   (* the original chunk stays current *)
       | (s1, None) =>
         match cur s1 with
         | Cur k =>
